@@ -13,6 +13,7 @@ CHECKS = {
             {"test": "TestC01Enum3", "rapid": False, "quick": 0, "thorough": 0, "quick_shards": 4, "only_tier": "quick", "env": {"VERIF_C01_STRIDE3": "40"}},
             {"test": "TestC01", "quick": 60000, "thorough": 300000, "shards": 16, "quick_shards": 2},
             {"test": "TestC01Scale", "quick": 400, "thorough": 1500, "shards": 16, "quick_shards": 2},
+            {"test": "TestC01Named", "rapid": False, "quick": 0, "thorough": 0, "shards": 1},
         ],
         "assumptions": [
             "reference matcher of DESIGN.md section 4 is the meaning of the core language; cells the documents leave open are discarded and counted",
